@@ -162,7 +162,7 @@ def path_state(cp, *, lines=None, printouts=None, errors=None):
 _HARNESS_HOME = os.path.dirname(os.path.abspath(__file__))
 
 
-SEAM_FUNCS = {"opener", "torn", "w", "w2", "write", "_gate", "sim_listdir"}
+SEAM_FUNCS = {"opener", "torn", "w", "w2", "write", "_gate", "sim_listdir", "__next__"}
 
 
 def in_repo(tb_or_exc):
